@@ -2,6 +2,7 @@ package kvql
 
 import (
 	"fmt"
+	"math"
 	"strconv"
 	"strings"
 )
@@ -192,16 +193,24 @@ func (o *ExpressionOptimizer) tryOptimizeBinaryOpExecute(e *BinaryOpExpr) (Expre
 			case *NumberExpr:
 				switch cret := ret.(type) {
 				case int64:
-					return &NumberExpr{Pos: leftPos, Data: fmt.Sprintf("%v", cret), Int: cret}, true
+					if cret >= 0 {
+						return &NumberExpr{Pos: leftPos, Data: fmt.Sprintf("%v", cret), Int: cret}, true
+					}
 				case float64:
-					return &FloatExpr{Pos: leftPos, Data: floatLiteralText(cret), Float: cret}, true
+					if hasFloatLiteral(cret) {
+						return &FloatExpr{Pos: leftPos, Data: floatLiteralText(cret), Float: cret}, true
+					}
 				}
 			case *FloatExpr:
 				switch cret := ret.(type) {
 				case int64:
-					return &FloatExpr{Pos: leftPos, Data: floatLiteralText(float64(cret)), Float: float64(cret)}, true
+					if cret >= 0 {
+						return &FloatExpr{Pos: leftPos, Data: floatLiteralText(float64(cret)), Float: float64(cret)}, true
+					}
 				case float64:
-					return &FloatExpr{Pos: leftPos, Data: floatLiteralText(cret), Float: cret}, true
+					if hasFloatLiteral(cret) {
+						return &FloatExpr{Pos: leftPos, Data: floatLiteralText(cret), Float: cret}, true
+					}
 				}
 			}
 		}
@@ -353,11 +362,11 @@ func (o *ExpressionOptimizer) tryOptimizeFunctionCall(e *FunctionCallExpr) (Expr
 			return &StringExpr{Pos: e.GetPos(), Data: ret.(string)}, true
 		case TNUMBER:
 			iret, ok := ret.(int64)
-			if ok {
+			if ok && iret >= 0 {
 				return &NumberExpr{Pos: e.GetPos(), Data: fmt.Sprintf("%v", ret), Int: iret}, true
 			}
 			fret, ok := ret.(float64)
-			if ok {
+			if ok && hasFloatLiteral(fret) {
 				return &FloatExpr{Pos: e.GetPos(), Data: floatLiteralText(fret), Float: fret}, true
 			}
 		case TBOOL:
@@ -368,6 +377,14 @@ func (o *ExpressionOptimizer) tryOptimizeFunctionCall(e *FunctionCallExpr) (Expr
 		}
 	}
 	return e, false
+}
+
+// hasFloatLiteral tells whether the language can spell f. Like a negative
+// integer, a negative float has no literal (`-` is a binary operator only),
+// nor have NaN and the infinities: a constant with such a value is left as the
+// expression it was written as
+func hasFloatLiteral(f float64) bool {
+	return !math.Signbit(f) && !math.IsNaN(f) && !math.IsInf(f, 0)
 }
 
 // floatLiteralText is the text of a float literal with value f, as the lexer
